@@ -505,6 +505,21 @@ def submits(ctx):
     return out
 
 
+def executor_origins(ctx, func, expr, depth=0):
+    """Texts of the executor expressions that can reach ``expr`` (a parameter is
+    followed to the arguments of the package callers, two hops)."""
+    if isinstance(expr, ast.Name) and expr.id in func.params and depth < 3:
+        outs = []
+        for cf, c, r in callers_of(ctx, func.qualname):
+            b = bind_args(ctx, c, cf, func)
+            if b is None or expr.id not in b or isinstance(b[expr.id], list):
+                continue
+            outs.extend(executor_origins(ctx, cf, b[expr.id], depth + 1))
+        if outs:
+            return sorted(set(outs))
+    return [norm(expr)]
+
+
 def ctor_kw(call, name):
     return kwarg(call, name) if call is not None else None
 
